@@ -1,4 +1,5 @@
 import Mochi.Model.Broker
+import Mochi.Lemmas.AckRes
 /-!
 # Frame lemmas for the sequential broker model (`Mochi/Model/Broker.lean`)
 
@@ -484,18 +485,19 @@ theorem processPubrec_frame (s : Server) (i id rc : Nat) : Frame i s (processPub
   unfold processPubrec
   extract_lets +onlyGivenNames c
   split
-  · exact Frame.refl i s []
+  · rw [ackRes_fst]; exact Frame.refl i s []
   · split
     · extract_lets +onlyGivenNames c'
       exact ((Frame.refl i s []).setOwn c' (OwnEq.flDelete' c id)).upd rfl rfl rfl
     · extract_lets +onlyGivenNames ack c' s1
-      exact (Frame.refl i s []).setOwn c' ((OwnEq.decRecv' c).flSet ack)
+      have hs1 : Frame i s s1 [] := (Frame.refl i s []).setOwn c' ((OwnEq.decRecv' c).flSet ack)
+      split <;> exact hs1
 
 theorem processPubrel_frame (s : Server) (i id rc : Nat) : Frame i s (processPubrel s i id rc).1 [] := by
   unfold processPubrel
   extract_lets +onlyGivenNames c
   split
-  · exact Frame.refl i s []
+  · rw [ackRes_fst]; exact Frame.refl i s []
   · split
     · extract_lets +onlyGivenNames c'
       exact ((Frame.refl i s []).setOwn c' (OwnEq.flDelete' c id)).upd rfl rfl rfl
@@ -736,12 +738,12 @@ theorem processPublish_frame (s : Server) (i : Nat) (qos : Nat) (dup retain : Bo
         else if (c.ver != 5) = true then
           match disconnectClient s i code with
           | (s, o) => (s, o, some code)
-        else (s, writeAck s i (if (qos == 2) = true then 5 else 4) id code, none)).1
+        else ackRes s i (if (qos == 2) = true then 5 else 4) id code).1
       (if (qos == 0) = true then ((s, [], none) : HRes)
         else if (c.ver != 5) = true then
           match disconnectClient s i code with
           | (s, o) => (s, o, some code)
-        else (s, writeAck s i (if (qos == 2) = true then 5 else 4) id code, none)).2.1 := by
+        else ackRes s i (if (qos == 2) = true then 5 else 4) id code).2.1 := by
     intro code
     split
     · exact Frame.refl i s _
@@ -751,7 +753,7 @@ theorem processPublish_frame (s : Server) (i : Nat) (qos : Nat) (dup retain : Bo
         have := disconnectClient_frame s i code
         rw [heq] at this
         exact this
-      · exact Frame.refl i s _
+      · rw [ackRes_fst]; exact Frame.refl i s _
   split
   · exact early _
   · split
@@ -770,7 +772,7 @@ theorem processPublish_frame (s : Server) (i : Nat) (qos : Nat) (dup retain : Bo
           · cases h
           · split at h
             · split at h
-              · cases h; rfl
+              · cases h; exact ackRes_fst s i 5 id 0x91
               · cases h
             · cases h
         generalize pre = pre' at hpre
@@ -810,7 +812,7 @@ theorem processPublish_frame (s : Server) (i : Nat) (qos : Nat) (dup retain : Bo
           split
           · exact hs2.nil _
           · split
-            · exact hs2.nil _
+            · rw [ackRes_fst]; exact hs2.nil _
             · extract_lets +onlyGivenNames pk4 s3
               have hs3 : Frame i s s3 [] := by
                 show Frame i s (if pk4.retain = true then retainMsg s2 pk4 else s2) []
